@@ -13,36 +13,47 @@ CFG = {
             "{a,b,space,newline,wide CJK} x width 0..4 x height 0..3, plus random texts (CRLF, combining marks, emoji, "
             "1-3 segments) with random draw/scroll/offset/relayout histories. widgets/scrollbar: all (total,view,top,h) "
             "in [-1,6]x[-1,7]x[-2,7]x[0,5] plus random valid positions. vxfw/list Dynamic: every history over "
-            "{next,prev,wheel up/down,draw,setcursor,pending -2} up to length 3 / 5 on 9 height patterns (0..4 items, "
-            "heights 1..3) x viewports {0,1,2,3,5} x (gap, cursor gutter) in {(0,off),(0,on),(1,off)}, plus random "
-            "histories with item replacement, heights up to 9, gaps 0..2. distinct = whole op history; non-trivial = "
+            "{next,prev,wheel up/down,draw,setcursor,pending -2,items shrunk,items other heights} up to length 3 / 5 on 9 "
+            "height patterns (0..4 items, heights 1..3) x viewports {0,1,2,3,5} x (gap, cursor gutter) in "
+            "{(0,off),(0,on),(1,off),(2,on)}; an upward-scroll family; a replacement family (gaps 0..3 evenly, heights 0..6, "
+            "the builder replaced often between pending scrolls of both signs, wheel events and selection changes); random "
+            "long histories with item replacement, heights up to 9, gaps 0..3. distinct = whole op history; non-trivial = "
             "anything but the constructor line.",
     "trusted_base": [
         "vaxis.Characters (uniseg segmentation, widths) is a parameter of the pager model: the harness passes the characters",
         "Window.Println / SetCell / Fill (clipping, C11) are not re-modelled here: the list model prints item i on row i when i < height",
         "uint is 64 bit (Go on amd64/arm64) in the Dynamic list model",
+        "the step from the regenerated statement skeleton of Dynamic (Gen/DynSkel.lean) to the executable model (Model/DynList.lean) is a transcription pinned by skeleton_*/facts_* theorems and the correspondence run; there is no interpreter of the skeleton",
+        "vxfw.NewSurface / AddChild / WriteCell (C14) are not re-modelled: the surface-size statement is syntactic (facts_surface_is_max) plus the harness reading s.Size",
     ],
-    "level_text": "widgets/list: no panic, index in range and the selected row inside the viewport are proved for every item "
-                  "count >= 0, every viewport height >= 0 and every finite history, over the index expressions regenerated from "
-                  "list.go. widgets/pager: the laid-out lines reproduce every character of every text incl. an unterminated "
-                  "last line, respect the width, and Draw clamps the offset - proved for all texts/widths/offsets. "
-                  "widgets/scrollbar: bar inside the track proved for all valid positions. vxfw/list Dynamic: layout "
-                  "(order, contiguity, heights) proved for one Draw from ANY state for gap = 0 or no upward scroll; for gap 0 and "
-                  "any fixed builder, no panic and 'selected item visible after SetCursor/NextItem/PrevItem + Draw' are proved for "
-                  "ALL histories (invariants Inv3/Inv4); for gap > 0 visibility is proved from any settled scroll state only.",
-    "level_note": "Proved for all inputs/histories: simple_list_safe, simple_list_selected_visible, pager_complete, "
-                  "pager_offset_clamped, scrollbar_in_track, dyn_no_panic_empty, dyn_no_panic (gap 0), dyn_cursor_visible and "
-                  "dyn_next_prev_visible (gap 0, all histories). Proved with an explicit extra hypothesis "
-                  "(full statement kept as def): dyn_layout_partial (gap = 0 or no upward scroll; full statement refuted by "
-                  "Witness.F119.dyn_layout_full_fails = finding F119c), dyn_cursor_visible_partial / dyn_next_prev_visible_partial "
-                  "(any gap >= 0, state assumed settled; dyn_cursor_visible_full for gap > 0 open). Validated by correspondence only: "
-                  "Dynamic with gap > 0 or with items replaced during the history (oracle evaluated on the real "
-                  "code on every generated history; recorded findings F119b-e), what Println/SetCell do with the rows. "
+    "level_text": "widgets/list: no panic, index in range, the selected row inside the viewport and rows in order/contiguous/"
+                  "complete are proved for every item count >= 0, every viewport height >= 0 and every finite history incl. "
+                  "SetItems, over the index expressions regenerated from list.go. widgets/pager: the laid-out lines reproduce "
+                  "every character of every text incl. an unterminated last line, respect the width, every character of a line "
+                  "is drawn in its own cell inside the window (wide grapheme at the edge included), Draw shows the lines from "
+                  "the offset on and clamps the offset after every scroll history - proved for all texts/widths/offsets. "
+                  "widgets/scrollbar: bar inside the track for all valid positions; for ALL inputs only window rows are touched "
+                  "and nothing is drawn when the content fits or a size is zero. vxfw/list Dynamic (after the repairs F119, "
+                  "F119b, F119c, F119d, F119f in /repo): layout (order, contiguity with the gap, heights, no overlap) proved for "
+                  "one Draw from ANY state and ANY gap; no panic, 'selected item visible after SetCursor/NextItem/PrevItem + "
+                  "Draw', and 'top/offset anchored on the child covering row 0' proved for ALL gaps >= 0 and ALL histories "
+                  "including replacement of the Builder's items (visibility even from any state); the surface returned has "
+                  "the size of the max constraint.",
+    "level_note": "Proved for all inputs/histories: simple_list_safe, simple_list_selected_visible, simple_list_rows_in_order, "
+                  "pager_complete, pager_offset_clamped, pager_scroll_history, pager_draw_rows, pager_row_keeps_characters "
+                  "(characters >= 1 column wide, window >= 1 column), scrollbar_in_track, scrollbar_all_inputs, dyn_layout and "
+                  "dyn_no_overlap (any state), dyn_no_panic_empty, dyn_no_panic, dyn_top_valid, dyn_anchor, "
+                  "dyn_next_prev_in_range, dyn_cursor_visible(_any_state), dyn_next_prev_visible(_any_state) - all gaps >= 0, "
+                  "histories with item replacement; no _partial statement is left. Witnesses show each statement false of the "
+                  "code before its repair (repair Bools of DynList.Facts). Validated by correspondence only: what "
+                  "Println/SetCell do with the rows; that Model/DynList.lean transcribes the skeleton faithfully. "
                   "Model tied to source by Gen/ListFacts.lean (index expressions translated, Draw/Layout/scrollbar bodies "
-                  "pinned statement by statement, Dynamic's methods pinned by digest, three repair facts as Bools) and by the "
-                  "public-API correspondence (0 mismatches allowed).",
+                  "pinned statement by statement) and, for Dynamic, by Gen/DynSkel.lean: all eleven method bodies translated "
+                  "into syntax (no digest), fully_recognised, skeleton_* (statement structure), facts_* (every arithmetic/"
+                  "boolean expression evaluated = the model's expression, for all values), the five repair facts read off the "
+                  "skeleton in Lean; and by the public-API correspondence (0 mismatches allowed).",
     "assumptions": [
-        "Dynamic list: child heights and their sums stay below 2^16 (uint16 arithmetic not modelled); cursors passed to SetCursor are below 2^63",
+        "Dynamic list: child heights and their sums stay below 2^16 (uint16 arithmetic not modelled); cursors passed to SetCursor are below 2^63; the Builder has fewer than 2^63 items and is prefix-closed (nil from the first missing index on)",
         "Draw contexts are bounded (Max.Width, Max.Height != 65535), as Dynamic.Draw itself requires",
     ],
     "technique": "Lean 4 proof over an executable model; extractor + differential correspondence harness",
